@@ -5,16 +5,32 @@ _s = importlib.util.spec_from_file_location("c15cfg", _p); _m = importlib.util.m
 SPEC = {
     "module": "C33.Property",
     "targets": ["C33/Property.vo"],
-    "theorems": ["C33_failed_run_changes_nothing", "C33_failures_erased", "C33_model_satisfies_spec", "C33_nonvacuous"],
-    "streams": [dict(_m.STREAM, name="srv33")],
+    "theorems": ["C33_failed_run_changes_nothing", "C33_failures_erased", "C33_model_satisfies_spec",
+                 "C33_fatal_error_fails_run", "C33_successful_run_is_complete", "C33_old_tal_failure_refuted", "C33_nonvacuous"],
+    "streams": [dict(_m.STREAM, name="srv33"),
+                {"name": "iofaults", "bin": "c33", "check_module": "C33.FaultSpec", "fn": "check_fcase", "casetype": "fcase",
+                 "why": {"2": "C33.FaultSpec.fspec_okb false: a validation run on a cache with a planted local I/O fault (a "
+                              "directory where a file is expected or the other way round, which utils::fatal reports as a "
+                              "fatal error) ended successfully with a payload different from the run without the fault: a "
+                              "run that hit a fatal error did not fail, so its partial data set would be served"}}],
     "level_text": "Theorems: a failed validation cycle leaves the entire served state unchanged, and for every history of "
                   "successful and failed runs the served state equals that of the history with the failures erased "
                   "(induction over the history). On the implementation, failed runs (retryable and fatal, forced at "
                   "ValidationReport::process) are interleaved with successful ones; after each, all reader operations must "
-                  "answer as before and no notification may be pending.",
+                  "answer as before and no notification may be pending. The premise side - a run during which a fatal "
+                  "error occurs is a run that fails - is a theorem over the task loop of Run::process (any forest of TAL "
+                  "and CA tasks, any deferred children, one validation thread; which task fails is an input): the result "
+                  "is a failure exactly when some task fails and a successful run processed every publication point; the "
+                  "stream `iofaults` plants local I/O faults in the cache of the real engine/store/collector on generated "
+                  "repositories and requires a run that ends successfully to have the payload of the fault-free twin run "
+                  "(this found the defect repaired by 'fix: fail the run when a trust anchor cannot be loaded or stored').",
     "level_note": "Model: process_once returns before update() when the run fails (src/operation.rs). Tie: real "
                   "Server::process_once with the run outcome forced by the hook at the top of ValidationReport::process; "
                   "observables: RTR state and data, /json ETag + Last-Modified + body, /json-delta, pending notification.",
-    "rule": _m.RULE,
+    "rule": _m.RULE + "; iofaults: 3 repository shapes (children in the trust anchor's rsync module / in modules of their "
+            "own = deferred tasks / a grandchild and a shared second module) x 1 and 4 validation threads x trust anchor "
+            "certificate served or withheld in the second run x no / one CA with a new version x 6 fault kinds (stored TA "
+            "certificate is a directory, stored/ta is a file, stored/tmp is a file, the stored point of each CA is a "
+            "directory, the directory of the stored point of each CA is a file, none); non-trivial = a task hits the fault",
     "assumptions": ["mark_update_start only touches last_update_start (not observable through the data endpoints)"],
 }
